@@ -570,6 +570,7 @@ def get_and_reserve_spendable_utxos(transaction: sqlite3.Connection, accounts: L
     reserved_dewies = 0
     multiplier = base_multiplier
     gap_count = 0
+    floor = max(floor, 1)  # the search window [floor, floor * multiplier) only grows from a positive floor
 
     while reserved_dewies < amount_to_reserve and gap_count < 5 and floor * multiplier < SQLITE_MAX_INTEGER:
         previous_reserved_dewies = reserved_dewies
